@@ -3,7 +3,9 @@
    pinned with Print Assumptions.  The constants of the key encoding come from
    gen/Tables.v, which is regenerated from /repo's source on every run. *)
 From Coq Require Import NArith ZArith List Bool.
+From Coq Require Import Sorting.Permutation Sorting.Sorted.
 From GV Require Import lib.Bytes model.SortKey proofs.SortKeyProofs proofs.SortKeySrc gen.Tables.
+From GV Require Import model.SortSpec model.Merge proofs.SortSpecProofs proofs.MergeProofs.
 Import ListNotations.
 Open Scope N_scope.
 
@@ -62,3 +64,36 @@ Theorem C08_row_key_order : forall cs r1 r2,
   lex_cmp (encode_row cs r1) (encode_row cs r2) = row_cmp cs r1 r2.
 Proof. exact encode_row_order. Qed.
 Print Assumptions C08_row_key_order.
+
+(* 7. sorting: a sorted permutation for every input (the declared order is total) *)
+Theorem C08_sort_is_sorted_permutation : forall cs l,
+  Permutation (isort cs l) l /\ sortedb cs (isort cs l) = true.
+Proof. intros cs l. split; [exact (isort_perm cs l)|exact (isort_sorted cs l)]. Qed.
+Print Assumptions C08_sort_is_sorted_permutation.
+
+(* 8. any binary merge tree over any sorted runs (any pairing order of the merge queue, any number of
+   partitions and blocks) yields a sorted permutation of all rows *)
+Theorem C08_merge_any_pairing : forall cs t,
+  all_runs (Sorted (fun a b => sle cs a b = true)) t ->
+  Sorted (fun a b => sle cs a b = true) (merge_tree cs t) /\ Permutation (merge_tree cs t) (runs t).
+Proof. exact merge_tree_sorted_perm. Qed.
+Print Assumptions C08_merge_any_pairing.
+
+(* 9. a sort that knows the limit (every run and every merge truncated to k = limit + offset) returns the
+   first k rows of a full sort *)
+Theorem C08_topk_hint_equiv : forall cs k t,
+  all_runs (Sorted (fun a b => sle cs a b = true)) t ->
+  exists p, Permutation p (runs t) /\ Sorted (fun a b => sle cs a b = true) p /\
+            merge_tree_hint cs k t = firstn k p.
+Proof. exact merge_tree_hint_topk. Qed.
+Print Assumptions C08_topk_hint_equiv.
+
+(* 10. the checker applied to the engine's answers is sound: an accepted answer is exactly the
+   requested slice of SOME correctly sorted arrangement of the input *)
+Theorem C08_order_slice_checker_sound : forall cs inp off lim out,
+  Forall (srow_wf cs) inp ->
+  check_order_slice cs inp off lim out = true ->
+  exists p, Permutation p inp /\ Sorted (fun a b => sle cs a b = true) p /\
+            out = match lim with Some n => slice off n p | None => skipn off p end.
+Proof. exact check_order_slice_sound. Qed.
+Print Assumptions C08_order_slice_checker_sound.
